@@ -110,7 +110,7 @@ impl SwiftField for Field61 {
 
         // Parse optional funds code (1 character)
         let mut funds_code = None;
-        if pos < input.len() && input.chars().nth(pos).unwrap().is_alphabetic() {
+        if pos < input.len() && input.chars().nth(pos).unwrap().is_ascii_uppercase() {
             funds_code = Some(input.chars().nth(pos).unwrap());
             pos += 1;
         }
